@@ -352,6 +352,7 @@ pub fn run(e: &'static Engine) {
          with a gap (side - image)/2 in [g - 0.5, g]; frame centre == requested position (else the symbol centre); image centre == \
          frame centre. Non-trivial: default placement (exhaustive) or >= 2 overrides; distinct by configuration.",
     );
+    e.extend_rule("part overrides_through_wasm; sizes up to 1.6 x canvas and gaps up to 0.8 x canvas; the raster cross-check samples every cell whose centre lies outside frame and image.");
     e.assume("requested sizes are >= 1 module (smaller frames can become negative after the half-module alignment adjustment; outside the stated domain)");
     crate::engine::run_regress(e, &|c, o| replay(e, c, o));
     // exhaustive defaults; side(v) monotone per (shape, margin)
